@@ -14,7 +14,7 @@ from .common import segno
 ID = 'C10'
 LEVEL = 'exploration'
 TITLE = 'Vector outputs (SVG, EPS, PDF, LaTeX) paint exactly the dark modules'
-RULE = ('one real symbol per symbol size x scale {1,2,10,0.5,2.5,3.3} x border {None,0,1} x colour variants x (SVG) all option vectors with '
+RULE = ('one real symbol per symbol size x scale {1,2,10,0.5,2.5,3.3,0.125,2.675,1/3} x border {None,0,1} x colour variants x (SVG) all option vectors with '
         '<= k deviations from the defaults; each document is parsed by an independent reader: page = (size+2b)*s, module size = page/cells '
         '= line width, covered cells = exactly the dark modules each once, nothing outside the page, stroke colour/opacity as requested, a '
         'light colour fills the whole page; PDF: header, every xref offset of a defined object, /Length, endobj. '
@@ -250,8 +250,10 @@ def run_case(case, acc):
     kind = case[0]
     if kind == 'fmt':
         _, v, fmt = case
-        for scale in (1, 2, 10, 0.5, 2.5, 3.3):
+        for scale in (1, 2, 10, 0.5, 2.5, 3.3, 0.125, 2.675, 1 / 3):
             for border in (None, 0, 1):
+                if scale in (0.125, 2.675, 1 / 3) and border == 0:
+                    continue
                 base = {}
                 if scale != 1:
                     base['scale'] = scale
@@ -264,7 +266,14 @@ def run_case(case, acc):
                     variants += [{'dark': d} for d in DARKS if d is not None or fmt == 'svg']
                     variants += [{'light': x} for x in LIGHTS[1:]]
                     variants += [{'dark': '#abc', 'light': 'red'}, {'dark': 'white', 'light': 'black'}]
+                    if fmt in ('eps', 'pdf'):
+                        # both documented tuple spellings: integers 0..255 and floats 0.0..1.0 (colliding values on purpose)
+                        variants += [{'dark': (1.0, 0.0, 0.0)}, {'dark': (1, 0, 0)}, {'light': (1.0, 1.0, 1.0)}, {'light': (1, 1, 1)},
+                                     {'dark': (0.5, 0.25, 1.0)}, {'dark': (0, 0, 1)}, {'dark': (0.0, 0.0, 1.0)}]
+                    if fmt == 'pdf':
+                        variants += [{'compresslevel': 0}, {'compresslevel': 1, 'light': '#eee'}]
                     if fmt == 'svg':
+                        variants += [{'dark': (255, 0, 0, 1)}, {'dark': (255, 0, 0, 1.0)}, {'dark': (255, 0, 0, 0)}, {'dark': (255, 0, 0, 0.0)}]
                         variants += [{'dark': d} for d in SVG_DARKS]
                         variants += [{'dark': '#00000010', 'svgversion': 2}, {'light': '#ffffff10'}, {'dark': '#0008', 'light': '#fff8', 'svgversion': 2.0}]
                 for var in variants:
